@@ -190,7 +190,8 @@ func (o *OvsdbServer) Transact(client *rpc2.Client, args []json.RawMessage, repl
 	o.txnMutex.Lock()
 	defer o.txnMutex.Unlock()
 
-	if len(args) < 2 {
+	// the database name, followed by any number of operations
+	if len(args) < 1 {
 		return fmt.Errorf("not enough args")
 	}
 	var db string
